@@ -205,6 +205,68 @@ def gen_universe(rng, surf_ids, first_cell, n_cells, univ, allow_empty=False):
     return cells
 
 
+def with_facets(rng, expr, modes):
+    '''modes: body id -> None (keep) | ('full', n) | ('one', k).  'full' writes
+    the body as all its facets; 'one' cuts along the plane of facet k instead of
+    the body, for every occurrence, so that the cells still partition space.'''
+    tag = expr[0]
+    if tag == 's' and modes.get(abs(expr[1])):
+        n, mode = expr[1], modes[abs(expr[1])]
+        if mode[0] == 'one':
+            return ('f', n, mode[1])
+        nf = mode[1]
+        if nf == 1:
+            return ('f', n, 1)
+        if n < 0:
+            return ('*',) + tuple(('f', n, k) for k in range(1, nf + 1))
+        return (':',) + tuple(('f', n, k) for k in range(1, nf + 1))
+    if tag in ('*', ':', '#'):
+        return (tag,) + tuple(with_facets(rng, e, modes) for e in expr[1:])
+    return expr
+
+
+def has_facet(expr):
+    return expr[0] == 'f' or (expr[0] in ('*', ':', '#')
+                              and any(has_facet(e) for e in expr[1:]))
+
+
+def plain(expr):
+    '''no complement inside'''
+    return expr[0] in ('s', 'f') or (expr[0] in ('*', ':')
+                                     and all(plain(e) for e in expr[1:]))
+
+
+def negate_expr(expr):
+    if expr[0] == 's':
+        return ('s', -expr[1])
+    if expr[0] == 'f':
+        return ('f', -expr[1], expr[2])
+    return (':' if expr[0] == '*' else '*',) + tuple(negate_expr(e)
+                                                     for e in expr[1:])
+
+
+def imp_cards(rng, deck):
+    '''Importances on IMP data cards for two particles with crossing zero
+    patterns (a cell is live iff one of them is non-zero).  Returns the text of
+    the deck; the abstract deck keeps the per-particle values on the cells.'''
+    import copy
+    level0 = [c for c in deck['cells'] if not c.get('u')]
+    for c in deck['cells']:
+        c['imp'] = {'n': 1, 'p': 1}
+    for c in level0:
+        c['imp'] = {'n': rng.choice([0, 1, 1, 2]), 'p': rng.choice([0, 1, 1, 4])}
+    if all(max(c['imp'].values()) == 0 for c in level0):
+        level0[0]['imp'] = {'n': 0, 'p': 1}
+    shadow = copy.deepcopy(deck)
+    for c in shadow['cells']:
+        c['imp'] = None
+    order = rng.sample(['n', 'p'], 2)
+    shadow['data'] = list(shadow.get('data', [])) + ['mode n p'] + [
+        f'imp:{part} ' + ' '.join(str(c['imp'][part]) for c in deck['cells'])
+        for part in order]
+    return deckmod.render(shadow)
+
+
 def gen_deck(rng):
     n_surf = rng.randint(2, 7)
     surfaces = gen_surfaces(rng, 1, n_surf)
@@ -234,6 +296,21 @@ def gen_deck(rng):
             sign = rng.choice([1, -1])
             victim['expr'] = (':', ('*', S(sign * src['id']),
                                     S(-sign * dup['id'])), victim['expr'])
+    # macrobody FACETS: a body literal -b becomes the intersection of its facets
+    # (-b.1 ... -b.n), +b the union of b.k; the complements written by dress()
+    # (#n of such a cell, #( ... ) around such an expression) then go through
+    # Surface.inverse() with a facet index
+    bodies = {s['id']: N_FACETS[s['mn']] for s in surfaces if s['mn'] in N_FACETS}
+    if bodies and rng.random() < 0.7:
+        modes = {}
+        for b, nf in bodies.items():
+            pick = rng.random()
+            modes[b] = None if pick < 0.2 else ('full', nf) if pick < 0.5 \
+                else ('one', rng.randint(1, nf))
+        for c in cells:
+            c['expr'] = with_facets(rng, c['expr'], modes)
+            if rng.random() < 0.3 and has_facet(c['expr']) and plain(c['expr']):
+                c['expr'] = ('#', negate_expr(c['expr']))
     # universes: one or two level-0 cells filled with the same universe
     if rng.random() < 0.45:
         n2 = rng.randint(2, 5)
@@ -340,7 +417,31 @@ CORPUS = [
                cell(2, ('#c', 1))],
      'surfaces': [surf(1, 'px', -1), surf(2, 'py', 0), surf(3, 'py', 0)],
      'transforms': {}, 'materials': {}, 'data': []},
+    # complement of a cell defined with a macrobody facet, and #( facet )
+    {'title': 'complement of a facet',
+     'cells': [cell(1, ('*', S(-30), ('f', 10, 1))),
+               cell(2, ('*', S(-30), ('#c', 1))),
+               cell(3, S(30), imp=0)],
+     'surfaces': [surf(10, 'rpp', -1, 1, -1, 1, -1, 1), surf(30, 'so', 5)],
+     'transforms': {}, 'materials': {}, 'data': []},
+    {'title': 'complement of an expression with facets',
+     'cells': [cell(1, ('*', S(-30), ('#', (':', ('f', 10, 1), ('f', 10, 3))))),
+               cell(2, ('*', S(-30), (':', ('f', 10, 1), ('f', 10, 3)))),
+               cell(3, S(30), imp=0)],
+     'surfaces': [surf(10, 'rpp', -1, 1, -1, 1, -1, 1), surf(30, 'so', 5)],
+     'transforms': {}, 'materials': {}, 'data': []},
 ]
+
+# importances on IMP data cards of two particles, zero patterns that cross
+CORPUS_IMP = {
+    'title': 'importance cards of two particles',
+    'cells': [cell(1, S(-1)), cell(2, ('*', S(1), S(-2))),
+              cell(3, ('*', S(2), S(-3))), cell(4, ('*', S(3), S(-4))),
+              cell(5, S(4))],
+    'surfaces': [surf(1, 'so', 1), surf(2, 'so', 2), surf(3, 'so', 3),
+                 surf(4, 'so', 4)],
+    'transforms': {}, 'materials': {}, 'data': []}
+CORPUS_IMP_VALUES = {'n': [1, 0, 1, 1, 0], 'p': [1, 1, 0, 1, 0]}
 
 
 def run_witnesses(res, rng=None):
@@ -350,6 +451,20 @@ def run_witnesses(res, rng=None):
     for deck in CORPUS:
         res.count('corpus:deck')
         check_deck(res, deck, deckmod.render(deck), rng, coq_cases, metas)
+    import copy
+    for order in (['n', 'p'], ['p', 'n']):
+        deck = copy.deepcopy(CORPUS_IMP)
+        for c, a, b in zip(deck['cells'], CORPUS_IMP_VALUES['n'],
+                           CORPUS_IMP_VALUES['p']):
+            c['imp'] = {'n': a, 'p': b}
+        shadow = copy.deepcopy(deck)
+        for c in shadow['cells']:
+            c['imp'] = None
+        shadow['data'] = ['mode n p'] + [
+            f'imp:{part} ' + ' '.join(str(v) for v in CORPUS_IMP_VALUES[part])
+            for part in order]
+        res.count('corpus:deck')
+        check_deck(res, deck, deckmod.render(shadow), rng, coq_cases, metas)
     bad, errs = common.run_case_files('c01_corpus', HEADER, 'case',
                                       'check_case', coq_cases, chunk=40)
     res.obligation(f'tie:corpus ({len(coq_cases)} minimised decks)',
@@ -455,7 +570,13 @@ def run_decks(res, rng, n_decks):
     coq_cases, metas = [], []
     for _ in range(n_decks):
         deck = gen_deck(rng)
-        text = deckmod.render(deck)
+        if rng.random() < 0.3:
+            text = imp_cards(rng, deck)
+            res.count('deck:imp-data-cards')
+        else:
+            text = deckmod.render(deck)
+        if any(has_facet(c['expr']) for c in deck['cells']):
+            res.count('deck:with-facets')
         args = []
         if rng.random() < 0.15:
             args.append('--skip-deduplication')
